@@ -489,6 +489,7 @@ func runC06(c *config) {
 		c06One(c, u, cs, bodies, i < 3)
 	}
 	c06CallSpellings(c)
+	c06Const(c, newRng(c.seed, "c06const"))
 }
 
 func c06One(c *config, u *universe, cs c06Case, bodies string, sample bool) {
@@ -640,5 +641,117 @@ func c06CheckText(c *config, cs c06Case, v value.Value, params []*ir.Param, rena
 		o.Fail("constructed_text", "", "the printed instruction does not denote what was constructed", map[string]string{"op": cs.op, "printed": got, "expected_fragment": want})
 	} else {
 		o.Pass("constructed_text")
+	}
+}
+
+// ---- constant expressions: the same rules, on the Type() methods of ir/constant and on the parser's check of a
+// constant expression against the type written before it
+
+type c06CExpr struct {
+	op    string
+	build func() constant.Constant
+	want  types.Type
+}
+
+func c06ConstGen(r *rng) c06CExpr {
+	ints := []*types.IntType{types.I8, types.I16, types.I32, types.I64}
+	it := ints[r.intn(len(ints))]
+	n := uint64(1 + r.intn(5))
+	mlen := uint64(1 + r.intn(6))
+	vt := types.NewVector(n, it)
+	zero := func(t types.Type) constant.Constant { return constant.NewZeroInitializer(t) }
+	undef := func(t types.Type) constant.Constant { return constant.NewUndef(t) }
+	any := func(t types.Type) constant.Constant {
+		if r.coin() {
+			return zero(t)
+		}
+		return undef(t)
+	}
+	scal := func() constant.Constant { return constant.NewInt(it, int64(r.intn(100))) }
+	switch r.intn(12) {
+	case 0:
+		return c06CExpr{"add", func() constant.Constant { return constant.NewAdd(scal(), scal()) }, it}
+	case 1:
+		return c06CExpr{"xor <n>", func() constant.Constant { return constant.NewXor(any(vt), any(vt)) }, vt}
+	case 2:
+		return c06CExpr{"icmp", func() constant.Constant { return constant.NewICmp(enum.IPredULT, scal(), scal()) }, types.I1}
+	case 3:
+		return c06CExpr{"icmp <n>", func() constant.Constant { return constant.NewICmp(enum.IPredEQ, any(vt), any(vt)) }, types.NewVector(n, types.I1)}
+	case 4:
+		return c06CExpr{"fcmp <n>", func() constant.Constant {
+			ft := types.NewVector(n, types.Double)
+			return constant.NewFCmp(enum.FPredOLT, any(ft), any(ft))
+		}, types.NewVector(n, types.I1)}
+	case 5:
+		return c06CExpr{"select <n x i1>", func() constant.Constant {
+			return constant.NewSelect(any(types.NewVector(n, types.I1)), any(vt), any(vt))
+		}, vt}
+	case 6:
+		return c06CExpr{"extractelement", func() constant.Constant { return constant.NewExtractElement(any(vt), constant.NewInt(types.I32, 0)) }, it}
+	case 7:
+		return c06CExpr{"insertelement", func() constant.Constant {
+			return constant.NewInsertElement(any(vt), scal(), constant.NewInt(types.I32, 0))
+		}, vt}
+	case 8, 9:
+		// the result takes its length from the mask, its element type from the operands
+		mt := types.NewVector(mlen, types.I32)
+		return c06CExpr{fmt.Sprintf("shufflevector <%d> mask <%d>", n, mlen), func() constant.Constant {
+			return constant.NewShuffleVector(any(vt), any(vt), any(mt))
+		}, types.NewVector(mlen, it)}
+	case 10:
+		to := ints[r.intn(len(ints))]
+		if to.BitSize <= it.BitSize {
+			return c06CExpr{"bitcast <n>", func() constant.Constant { return constant.NewBitCast(any(vt), vt) }, vt}
+		}
+		return c06CExpr{"zext <n>", func() constant.Constant { return constant.NewZExt(any(vt), types.NewVector(n, to)) }, types.NewVector(n, to)}
+	default:
+		if r.coin() {
+			return c06CExpr{"trunc", func() constant.Constant { return constant.NewTrunc(constant.NewInt(types.I64, 300), types.I8) }, types.I8}
+		}
+		pt := types.NewPointer(it)
+		return c06CExpr{"ptrtoint <n>", func() constant.Constant {
+			return constant.NewPtrToInt(any(types.NewVector(n, pt)), types.NewVector(n, types.I64))
+		}, types.NewVector(n, types.I64)}
+	}
+}
+
+func c06Const(c *config, r *rng) {
+	o := c.out
+	for i := 0; i < 600*c.scale; i++ {
+		ce := c06ConstGen(r)
+		o.Stat("cexpr." + strings.Fields(ce.op)[0])
+		var e constant.Constant
+		got := tyOrPanic(func() types.Type { e = ce.build(); return e.Type() })
+		want := "Ok " + ce.want.String()
+		det := map[string]interface{}{"op": ce.op, "llvm": want, "ir": got}
+		if got != want {
+			o.Fail("result_type", "", "the type of a constant expression differs from LLVM's rule", det)
+			continue
+		}
+		// through the text: the parser checks the expression against the type written before it
+		m := ir.NewModule()
+		var src string
+		var pt types.Type
+		oc, msg := guard(func() error {
+			m.NewGlobalDef("g", e)
+			src = m.String()
+			m2, err := asm.ParseString("c06c.ll", src)
+			if err != nil {
+				return err
+			}
+			pt = m2.Globals[0].Init.Type()
+			return nil
+		})
+		det["printed"] = src
+		if oc != ocOk {
+			det["msg"] = msg
+			o.Fail("result_type", "", "the parser rejects (or crashes on) a well-typed constant expression: "+oc.String(), det)
+		} else if pt.String() != ce.want.String() {
+			det["parser"] = pt.String()
+			o.Fail("result_type", "", "the parser's type of a constant expression differs from LLVM's rule", det)
+		} else {
+			o.Pass("result_type")
+		}
+		o.Nontrivial("cexpr:" + src)
 	}
 }
